@@ -33,6 +33,39 @@ fn receive_all_vs_decoder<const N: usize>() {
     let buf: [u8; N] = kani::any();
     let len: usize = kani::any();
     kani::assume(len <= N);
+    receive_all_vs_decoder_on::<N>(buf, len);
+}
+
+/// Longer buffers of a restricted SHAPE: an optional short confirmation, then bytes that start
+/// like an SD2 frame with LE = LEr in 3..=11 (9..17 bytes; LE 3 and 11 are the lengths for which
+/// the canonical encoding would be SD1 / SD3), everything else symbolic, any fill level.
+fn receive_all_sd2_shape<const N: usize>(le_lo: u8, le_hi: u8) {
+    let buf: [u8; N] = kani::any();
+    let len: usize = kani::any();
+    kani::assume(len <= N);
+    let pre: usize = if kani::any() { 1 } else { 0 };
+    if pre == 1 {
+        kani::assume(buf[0] == 0xE5);
+    }
+    kani::assume(buf[pre] == 0x68 && buf[pre + 3] == 0x68 && buf[pre + 1] == buf[pre + 2] && buf[pre + 1] >= le_lo && buf[pre + 1] <= le_hi);
+    receive_all_vs_decoder_on::<N>(buf, len);
+}
+
+/// LE = 3: the 9-byte SD2 frame whose canonical encoding would be SD1
+#[kani::proof]
+#[kani::unwind(13)]
+fn c16_receive_all_sd2_le3_q() {
+    receive_all_sd2_shape::<10>(3, 3);
+}
+
+/// LE = 11: the 17-byte SD2 frame whose canonical encoding would be SD3
+#[kani::proof]
+#[kani::unwind(21)]
+fn c16_receive_all_sd2_le11_q() {
+    receive_all_sd2_shape::<18>(11, 11);
+}
+
+fn receive_all_vs_decoder_on<const N: usize>(buf: [u8; N], len: usize) {
     let mut phy = KPhy::<N, 4>::idle_with(buf, len);
     let now = crate::time::Instant::ZERO;
 
